@@ -409,6 +409,17 @@ func (p *valParser) val() interface{} {
 		id, _ := strconv.Atoi(t[1:])
 		return p.hosts[id]
 	case 'P':
+		// typed nil pointers of different Go types: all null to a formula
+		switch t {
+		case "Ps":
+			return (*string)(nil)
+		case "Pm":
+			return (*map[string]interface{})(nil)
+		case "Pt":
+			return (*SBase)(nil)
+		case "Pf":
+			return (*float64)(nil)
+		}
 		return (*int)(nil)
 	case 'C':
 		return context.Background()
